@@ -127,6 +127,12 @@ _op("LocalGet", pt.App.localGet, "app_local_get", [U, B], ANY, 2, "app")
 _op("LocalPutU", pt.App.localPut, "app_local_put", [U, B, U], N, 2, "app")
 _op("LocalDel", pt.App.localDel, "app_local_del", [U, B], N, 2, "app")
 _op("Balance", pt.Balance, "balance", [U], U, 2, "app")
+_op("OptedIn", pt.App.optedIn, "app_opted_in", [U, U], U, 2, "app")
+_op("BoxCreate", pt.App.box_create, "box_create", [B, U], U, 8, "app")
+_op("BoxDelete", pt.App.box_delete, "box_del", [B], U, 8, "app")
+_op("BoxPut", pt.App.box_put, "box_put", [B, B], N, 8, "app")
+_op("BoxExtract", pt.App.box_extract, "box_extract", [B, U, U], B, 8, "app")
+_op("BoxReplace", pt.App.box_replace, "box_replace", [B, U, B], N, 8, "app")
 _op("MinBalance", pt.MinBalance, "min_balance", [U], U, 3, "app")
 # n-ary constructors: rendered as a left fold of the binary op
 NARY = {
@@ -142,6 +148,11 @@ MAYBE = {  # kind -> (constructor, teal op, immediates, arg types, value type, m
     "LocalGetEx": (lambda acct, a, k: pt.App.localGetEx(acct, a, k), "app_local_get_ex", [], [U, U, B], ANY, 2),
     "AssetBalance": (lambda acct, asset: pt.AssetHolding.balance(acct, asset), "asset_holding_get", ["AssetBalance"], [U, U], U, 2),
     "AssetTotal": (lambda asset: pt.AssetParam.total(asset), "asset_params_get", ["AssetTotal"], [U], U, 2),
+    "AssetCreator": (lambda asset: pt.AssetParam.creator(asset), "asset_params_get", ["AssetCreator"], [U], B, 5),
+    "AcctBalance": (lambda a: pt.AcctParam.balance(a), "acct_params_get", ["AcctBalance"], [U], U, 6),
+    "AcctAuthAddr": (lambda a: pt.AcctParam.auth_addr(a), "acct_params_get", ["AcctAuthAddr"], [U], B, 6),
+    "BoxGet": (lambda n: pt.App.box_get(n), "box_get", [], [B], B, 8),
+    "BoxLen": (lambda n: pt.App.box_length(n), "box_len", [], [B], U, 8),
 }
 MULTI = {  # kind -> (Op, teal op, arg types, output types, min version): MultiValue built directly, n outputs
     "AddW": (pt.Op.addw, "addw", [U, U], [U, U], 2),
